@@ -92,6 +92,11 @@ check("C02", "exploration",
       "V8 and acorn from node 20 are the trusted engine and parser; scope trees deeper than the bound and direct eval are outside.",
       "bounded exhaustive scope-shape enumeration with instrumented bindings executed on an independent engine + independent parser for static clauses", "DESIGN.md#c02", engine="jsrun")
 
+check("C17", "exploration",
+      "The tables are finite and are enumerated completely: all ~2230 entries of html.EntitiesMap (each replacement must decode to the same text as the reference it replaces, by the Go standard library's entity table), the reverse maps, xml.EntitiesMap, css.ShortenColorHex/ShortenColorName against the CSS Color 4 keyword table, and tagMap/attrMap/jsMimetypes/optionalZeroDimension/svg colorAttrMap (read from the source with go/parser) against lists written from the HTML Standard and CSS Values 4. Every entity additionally goes through the public minifier in text and in attribute values followed by 12 different continuations and is re-parsed with x/net/html; every colour keyword and its hex value goes through the CSS and SVG minifiers; every element and attribute name of the hash tables is probed behaviourally (boolean minimisation, white-space removal next to the element).",
+      "Reference lists and the colour table are written into /verif from the standards; the Go standard library and x/net/html are the entity references.",
+      "complete enumeration of finite tables vs independent standard tables, directly and through the public API", "DESIGN.md#c17")
+
 ALL = ["C%02d" % i for i in range(1, 21)]
 NOT_YET = {p: "check not built yet in this revision (planned, see DESIGN.md section 4); not claimed until its command exists" for p in ALL if p not in CHECKS}
 
